@@ -31,6 +31,7 @@ type c11Case struct {
 	HoldIdx2 int
 	BalMode  int // 0 exact, 1 exact-1, 2 zero, 3 unknown denom
 	DepKind  int // 0 SendToHubEvent, 1 TransferToChainEvent->hub, 2 TransferToChainEvent->bsc (onward transfer scheduled)
+	SrcRate  int   // cross-chain deposits: commission rate of the ORIGINATING chain's row, 0 = the same as the destination's, i+1 = c11Rates[i]
 	Residue  int64 // hub units sitting on the module's transit account before the deposit (left there by earlier fee payouts)
 }
 
@@ -64,7 +65,12 @@ func c11Run(in *hub.Instance, cs c11Case) c11Res {
 	val := []hub.Validator{hub.NewValidator("A"), hub.NewValidator("B"), hub.NewValidator("C")}
 	rate := sdk.MustNewDecFromStr(c11Rates[cs.RateIdx])
 	g := StdGenesis(val, []int64{10, 10, 10}, []sdk.AccAddress{user}, nil)
-	g.Hub.TokenInfos = &mhubtypes.TokenInfos{TokenInfos: []*mhubtypes.TokenInfo{{Id: 1, Denom: "hub", ChainId: "ethereum", ExternalTokenId: EthHub, ExternalDecimals: cs.Dec, Commission: rate},
+	srcRate := rate
+	if cs.SrcRate > 0 {
+		// the listing on the chain a cross-chain deposit comes from has its own rate; the withdrawal is one of the destination's token
+		srcRate = sdk.MustNewDecFromStr(c11Rates[cs.SrcRate-1])
+	}
+	g.Hub.TokenInfos = &mhubtypes.TokenInfos{TokenInfos: []*mhubtypes.TokenInfo{{Id: 1, Denom: "hub", ChainId: "ethereum", ExternalTokenId: EthHub, ExternalDecimals: cs.Dec, Commission: srcRate},
 		// the bsc listing has the SAME contract address as the ethereum one (a token deployed at one address on both
 		// chains) and its own decimals: decimals belong to the (chain, id) pair
 		{Id: 2, Denom: "hub", ChainId: "bsc", ExternalTokenId: EthHub, ExternalDecimals: 18, Commission: rate}}}
@@ -296,6 +302,14 @@ func c11Cases(tier string) []c11Case {
 			for _, res := range []int64{0, 850} {
 				for ri := range c11Rates {
 					out = append(out, c11Case{Kind: "deposit", Amount: a, Fee: big.NewInt(3), Dec: d, DepKind: 2, Residue: res, RateIdx: ri})
+					if res == 0 {
+						// the two listings of the token charge different rates
+						for si := range c11Rates {
+							if si != ri {
+								out = append(out, c11Case{Kind: "deposit", Amount: a, Fee: big.NewInt(3), Dec: d, DepKind: 2, RateIdx: ri, SrcRate: si + 1})
+							}
+						}
+					}
 				}
 			}
 		}
@@ -449,7 +463,7 @@ func init() {
 			}
 			out.Evidence = map[string]interface{}{"level": "exploration", "coverage": map[string]interface{}{
 				"evaluations": len(cases), "distinct_nontrivial": nontrivial,
-				"rule":        "Cartesian grid: amount, fee in {1,2,99,100,101,1e18-1,1e18,2^200} x external decimals {0,6,18,24} x commission rate {0,1e-18,1%,99.99%} x (sender balance {exact, exact-1, 0, unknown denom} | holder value at tier boundaries x {sender holds, recipient holds}) plus every pair (sender holding, recipient holding) of tier-boundary values compared with the two single-holder runs, plus deposits (both event kinds) over amount x decimals; each tuple is executed on a fresh real instance; non-trivial = the request/event took effect (was not rejected)",
+				"rule":        "Cartesian grid: amount, fee in {1,2,99,100,101,1e18-1,1e18,2^200} x external decimals {0,6,18,24} x commission rate {0,1e-18,1%,99.99%} x (sender balance {exact, exact-1, 0, unknown denom} | holder value at tier boundaries x {sender holds, recipient holds}) plus every pair (sender holding, recipient holding) of tier-boundary values compared with the two single-holder runs, plus deposits (both event kinds) over amount x decimals, plus deposits bound for another chain over amount x decimals x rate x {clean transit account, residue} and x every other rate on the originating chain's listing; each tuple is executed on a fresh real instance; non-trivial = the request/event took effect (was not rejected)",
 				"samples":     samples, "outcomes": outcomes, "exhaustive": true,
 			}, "assumptions": []string{"the discount tier table itself is not part of the property: with a non-zero holding only the upper bound rate*(amount+fee) and the scheduled-amount bounds are demanded; with no holding equality is demanded; when both parties hold, the commission may not be lower than the lower of the two single-holder commissions measured on the same code", "block failures during deposit processing belong to C05"}}
 			out.Summary = fmt.Sprintf("cases=%d outcomes=%v violations=%d (%s)", len(cases), outcomes, len(out.Violations), time.Since(start).Round(time.Millisecond))
